@@ -114,6 +114,9 @@ def _ops(ctx, lib, cls):
         O['assign_response_times'] = lambda s: setattr(s, 'response_times', np.array([0.5, 1.4]))
         O['gen_response_spectrum_with_times'] = lambda s: s.gen_response_spectrum(response_times=np.array([0.45, 1.2]))
         O['response_series_with_times'] = lambda s: s.response_series(response_times=np.array([0.6, 1.1]))
+        # new periods whose shortest one implies another integration step than the old list's (T_min/20 vs dt/4)
+        O['gen_response_spectrum_with_long_times'] = lambda s: s.gen_response_spectrum(response_times=np.array([2.4, 3.0]))
+        O['gen_response_spectrum_with_short_times'] = lambda s: s.gen_response_spectrum(response_times=np.array([0.62, 3.0]), min_dt_ratio=8)
     return O
 
 
